@@ -252,11 +252,13 @@ func (f *fileDecorator) link() {
 
 			_, caseClause := frag.Node.(*ast.CaseClause)
 			_, commClause := frag.Node.(*ast.CommClause)
-			if start == end && (caseClause || commClause) {
-				// special case for case / comm clause with no items... the clause node starts and
-				// ends on the same line, but comments can still be hanging. We spoof an indented
-				// end position:
-				end++
+			if caseClause || commClause {
+				// special case for case / comm clause: the body of the clause is indented by one
+				// whatever the indent of the line the clause ends on (a clause with no items ends
+				// on the line it starts on, a clause whose last statement is wrapped ends on a
+				// continuation line), and comments can still be hanging. We spoof an indented end
+				// position:
+				end = start + 1
 			}
 
 			if end != start+1 {
